@@ -204,6 +204,11 @@ theorem addSet_not_ok (m : Matcher) (a : AddCall) (h : m.err = none) (hc : callO
     simp only [hi, ↓reduceIte]
     simp only [hi', decide_true, Bool.true_and] at hc
     cases hk : a.kind <;> simp only [hk] at hc ⊢ <;> simp_all
+    obtain ⟨x, hx, hx'⟩ := hc
+    rw [if_neg]
+    intro hall
+    rw [hall x hx] at hx'
+    exact absurd hx' (by decide)
 
 theorem addSet_ok (m : Matcher) (a : AddCall) (h : m.err = none) (hc : callOk m.sets.size a = true) :
     (m.addSet a.idx a.kind a.pats).err = none ∧
@@ -222,16 +227,428 @@ theorem addSet_ok (m : Matcher) (a : AddCall) (h : m.err = none) (hc : callOk m.
     intro i
     cases hs : m.sets[i]? <;> simp [contrib, hkind, app_empty]
   case regex =>
-    simp only [hk, ↓reduceIte, h, Array.size_modify, true_and]
+    simp only [hk, ↓reduceIte, Array.size_modify, true_and]
     intro i
     rw [Array.getElem?_modify]
     by_cases e : a.idx = i <;> simp [e, contrib, hkind, SetBuild.app]
     all_goals (cases hs : m.sets[i]? <;> simp)
   all_goals
-    simp only [h, Array.size_modify, true_and]
+    simp only [Array.size_modify, true_and]
     intro i
     rw [Array.getElem?_modify]
     by_cases e : a.idx = i <;> simp [e, contrib, hkind, SetBuild.app]
     all_goals (cases hs : m.sets[i]? <;> simp)
+
+theorem app_assoc (x y z : SetBuild) : (x.app y).app z = x.app (y.app z) := by
+  simp [SetBuild.app, List.append_assoc]
+
+theorem setOf_nil (i : Nat) : setOf [] i = ⟨[], [], []⟩ := by simp [setOf, callsFor]
+
+theorem setOf_cons (a : AddCall) (log : List AddCall) (i : Nat) :
+    setOf (a :: log) i = if a.idx = i then (contrib a).app (setOf log i) else setOf log i := by
+  by_cases e : a.idx = i
+  · simp [setOf, callsFor, e, SetBuild.app]
+  · have : (a.idx == i) = false := by simp [e]
+    simp [setOf, callsFor, e, this]
+
+def stepAdd (m : Matcher) (a : AddCall) : Matcher := m.addSet a.idx a.kind a.pats
+
+theorem foldl_of_err (log : List AddCall) : ∀ (m : Matcher) (e : MErr), m.err = some e →
+    log.foldl stepAdd m = m := by
+  induction log with
+  | nil => intros; rfl
+  | cons a log ih =>
+    intro m e h
+    simp only [List.foldl_cons, stepAdd]
+    rw [addSet_of_err m a e h]
+    exact ih m e h
+
+theorem foldl_ok (log : List AddCall) : ∀ (m : Matcher), m.err = none →
+    (∀ a ∈ log, callOk m.sets.size a = true) →
+    (log.foldl stepAdd m).err = none ∧ (log.foldl stepAdd m).sets.size = m.sets.size ∧
+    ∀ i : Nat, (log.foldl stepAdd m).sets[i]? = (m.sets[i]?).map fun (sb : SetBuild) => sb.app (setOf log i) := by
+  induction log with
+  | nil =>
+    intro m h _
+    refine ⟨h, rfl, ?_⟩
+    intro i
+    have : (fun sb : SetBuild => sb.app (setOf [] i)) = id := by
+      funext sb; simp [setOf_nil, app_empty]
+    rw [this]; simp
+  | cons a log ih =>
+    intro m h hall
+    obtain ⟨h1, h2, h3⟩ := addSet_ok m a h (hall a (by simp))
+    have hall' : ∀ b ∈ log, callOk (m.addSet a.idx a.kind a.pats).sets.size b = true := by
+      intro b hb; rw [h2]; exact hall b (by simp [hb])
+    obtain ⟨g1, g2, g3⟩ := ih _ h1 hall'
+    simp only [List.foldl_cons, stepAdd] at g1 g2 g3 ⊢
+    refine ⟨g1, by rw [g2, h2], ?_⟩
+    intro i
+    rw [g3 i, h3 i, setOf_cons]
+    cases hs : m.sets[i]? with
+    | none => simp
+    | some sb =>
+      by_cases e : a.idx = i <;> simp [e, app_assoc]
+
+theorem foldl_bad (log : List AddCall) : ∀ (m : Matcher) (a : AddCall), m.err = none →
+    log.find? (fun a => !callOk m.sets.size a) = some a →
+    (log.foldl stepAdd m).err = some (callErr m.sets.size a) := by
+  induction log with
+  | nil => intro m a _ h; simp at h
+  | cons b log ih =>
+    intro m a h hf
+    simp only [List.foldl_cons, stepAdd]
+    by_cases hb : callOk m.sets.size b = true
+    · obtain ⟨h1, h2, _⟩ := addSet_ok m b h hb
+      have hf' : log.find? (fun a => !callOk m.sets.size a) = some a := by
+        rw [List.find?_cons_of_neg (by simp [hb])] at hf; exact hf
+      have := ih (m.addSet b.idx b.kind b.pats) a h1 (by rw [h2]; exact hf')
+      rw [h2] at this
+      exact this
+    · have hb' : callOk m.sets.size b = false := by simpa using hb
+      have : a = b := by
+        rw [List.find?_cons_of_pos (by simp [hb'])] at hf; exact (Option.some.inj hf).symm
+      subst this
+      have he := addSet_not_ok m a h hb'
+      have := foldl_of_err log _ _ he
+      rw [this, he]
+
+theorem replay_ok (n : Nat) (log : List AddCall) (hall : ∀ a ∈ log, callOk n a = true) :
+    (Matcher.replay n log).err = none ∧ (Matcher.replay n log).sets.size = n ∧
+    ∀ i, i < n → (Matcher.replay n log).sets[i]? = some (setOf log i) := by
+  have h := foldl_ok log (Matcher.new n) rfl (by simpa [Matcher.new] using hall)
+  simp only [Matcher.new, Array.size_replicate] at h
+  have e : Matcher.replay n log = log.foldl stepAdd ⟨Array.replicate n {}, none⟩ := rfl
+  refine ⟨by rw [e]; exact h.1, by rw [e]; exact h.2.1, ?_⟩
+  intro i hi
+  have := h.2.2 i
+  have e : Matcher.replay n log = log.foldl stepAdd ⟨Array.replicate n {}, none⟩ := rfl
+  rw [e, this]
+  simp [hi, SetBuild.app]
+
+theorem replay_bad (n : Nat) (log : List AddCall) (a : AddCall)
+    (h : log.find? (fun a => !callOk n a) = some a) :
+    (Matcher.replay n log).err = some (callErr n a) := by
+  have := foldl_bad log (Matcher.new n) a rfl (by simpa [Matcher.new] using h)
+  have e : Matcher.replay n log = log.foldl stepAdd (Matcher.new n) := rfl
+  rw [e]
+  simpa [Matcher.new] using this
+
+/-! ### `Build` -/
+
+theorem mem_dedupAdj (x : Str) : ∀ l : List Str, x ∈ dedupAdj l ↔ x ∈ l
+  | [] => by simp [dedupAdj]
+  | [a] => by simp [dedupAdj]
+  | a :: b :: rest => by
+    have ih := mem_dedupAdj x (b :: rest)
+    unfold dedupAdj
+    by_cases e : a = b
+    · simp only [e, ↓reduceIte, ih]; simp
+    · simp only [e, ↓reduceIte, List.mem_cons] at ih ⊢
+      rw [ih]
+
+theorem mem_sortDedup (x : Str) (keys : List Str) : x ∈ sortDedup keys ↔ x ∈ keys := by
+  unfold sortDedup
+  rw [mem_dedupAdj, List.mem_mergeSort]
+
+theorem firstInvalid_none_iff (chars : ValidChars) (keys : List Str) :
+    firstInvalid chars keys = none ↔ ∀ k ∈ keys, ∀ c ∈ k, chars.isValid c = true := by
+  unfold firstInvalid
+  rw [List.findSome?_eq_none_iff]
+  constructor
+  · intro h k hk c hc
+    have := h k hk
+    rw [List.find?_eq_none] at this
+    simpa using this c hc
+  · intro h k hk
+    rw [List.find?_eq_none]
+    intro c hc
+    simpa using h k hk c hc
+
+theorem firstInvalid_some (chars : ValidChars) (keys : List Str) (c : Nat)
+    (h : firstInvalid chars keys = some c) : ∃ k ∈ keys, c ∈ k ∧ chars.isValid c = false := by
+  unfold firstInvalid at h
+  obtain ⟨k, hk, hf⟩ := List.exists_of_findSome?_eq_some h
+  have := List.find?_some hf
+  exact ⟨k, hk, List.mem_of_find?_eq_some hf, by simpa using this⟩
+
+/-- `NewTrie` succeeds on a non-empty list of keys over the alphabet. -/
+theorem Trie.build_ok (chars : ValidChars) (keys : List Str) (hne : keys ≠ [])
+    (hv : ∀ k ∈ keys, ∀ c ∈ k, chars.isValid c = true) :
+    Trie.build chars keys = .ok (Trie.ofOuts chars (bfs (sortDedup keys))) := by
+  unfold Trie.build
+  have h1 : firstInvalid chars (sortDedup keys) = none := by
+    rw [firstInvalid_none_iff]
+    intro k hk; exact hv k ((mem_sortDedup k keys).mp hk)
+  have h2 : (sortDedup keys).isEmpty = false := by
+    cases keys with
+    | nil => exact absurd rfl hne
+    | cons k ks =>
+      have : k ∈ sortDedup (k :: ks) := (mem_sortDedup k _).mpr (by simp)
+      cases hs : sortDedup (k :: ks) with
+      | nil => rw [hs] at this; simp at this
+      | cons _ _ => rfl
+  simp only [h1, h2]
+  rfl
+
+theorem valid_hat : domainChars.isValid cHat = true := by decide
+theorem valid_dot : domainChars.isValid cDot = true := by decide
+
+/-- every key `AddSet` stores for full/suffix patterns is, once `ToSuffixTrieString` has removed the
+`$`, a word over the trie alphabet -/
+theorem normFull_keys_valid (d k : Str) (hk : k ∈ normFull d) :
+    ∀ c ∈ toSuffixTrieString k, domainChars.isValid c = true := by
+  unfold normFull at hk
+  split at hk
+  · rename_i hv
+    simp only [List.mem_singleton] at hk
+    subst hk
+    rw [key_full]
+    intro c hc
+    simp only [List.mem_append, List.mem_reverse, List.mem_singleton] at hc
+    rcases hc with hc | rfl
+    · exact List.all_eq_true.mp hv c hc
+    · exact valid_hat
+  · simp at hk
+
+theorem normSuffix_keys_valid (d k : Str) (hk : k ∈ normSuffix d) :
+    ∀ c ∈ toSuffixTrieString k, domainChars.isValid c = true := by
+  unfold normSuffix at hk
+  split at hk
+  · rename_i hv
+    have hd := List.all_eq_true.mp hv
+    split at hk
+    · simp only [List.mem_singleton] at hk
+      subst hk
+      rw [key_bare]
+      intro c hc
+      exact hd c (List.mem_reverse.mp hc)
+    · simp only [List.mem_cons, List.not_mem_nil, or_false] at hk
+      rcases hk with rfl | rfl
+      · rw [key_dot]
+        intro c hc
+        simp only [List.mem_append, List.mem_reverse, List.mem_singleton] at hc
+        rcases hc with hc | rfl
+        · exact hd c hc
+        · exact valid_dot
+      · rw [key_full]
+        intro c hc
+        simp only [List.mem_append, List.mem_reverse, List.mem_singleton] at hc
+        rcases hc with hc | rfl
+        · exact hd c hc
+        · exact valid_hat
+  · simp at hk
+
+theorem contrib_trie_valid (a : AddCall) (k : Str) (hk : k ∈ (contrib a).trie) :
+    ∀ c ∈ toSuffixTrieString k, domainChars.isValid c = true := by
+  unfold contrib at hk
+  cases hkind : a.kind <;> simp only [hkind] at hk
+  · obtain ⟨p, _, hp⟩ := List.mem_flatMap.mp hk
+    exact normFull_keys_valid p.s k hp
+  · obtain ⟨p, _, hp⟩ := List.mem_flatMap.mp hk
+    exact normSuffix_keys_valid p.s k hp
+  all_goals simp at hk
+
+theorem contrib_ac_valid (a : AddCall) (k : Str) (hk : k ∈ (contrib a).ac) :
+    k.all acValid = true := by
+  unfold contrib at hk
+  cases hkind : a.kind <;> simp only [hkind] at hk
+  case keyword =>
+    obtain ⟨p, _, hp⟩ := List.mem_flatMap.mp hk
+    unfold normKeyword at hp
+    split at hp
+    · simp at hp; rw [hp]; assumption
+    · simp at hp
+  all_goals simp at hk
+
+/-- the built form of set `i` -/
+def builtOf (sb : SetBuild) : BuiltSet :=
+  let keys := sb.trie.map toSuffixTrieString
+  ⟨keys, if keys.isEmpty then none else some (Trie.ofOuts domainChars (bfs (sortDedup keys))), sb.ac, sb.rx⟩
+
+theorem buildSet_setOf (log : List AddCall) (i : Nat) :
+    buildSet (setOf log i) = .ok (builtOf (setOf log i)) := by
+  unfold buildSet builtOf
+  have hac : ((setOf log i).ac.all fun p => p.all acValid) = true := by
+    rw [List.all_eq_true]
+    intro k hk
+    simp only [setOf] at hk
+    obtain ⟨a, _, ha⟩ := List.mem_flatMap.mp hk
+    exact contrib_ac_valid a k ha
+  simp only [hac, Bool.not_true, Bool.false_eq_true, ↓reduceIte]
+  by_cases he : ((setOf log i).trie.map toSuffixTrieString).isEmpty = true
+  · simp [he]
+  · simp only [he, Bool.false_eq_true, ↓reduceIte]
+    rw [Trie.build_ok]
+    · intro h; simp [h] at he
+    · intro k hk c hc
+      obtain ⟨k0, hk0, rfl⟩ := List.mem_map.mp hk
+      simp only [setOf] at hk0
+      obtain ⟨a, _, ha⟩ := List.mem_flatMap.mp hk0
+      exact contrib_trie_valid a k0 ha c hc
+
+theorem mapM_ok_of_forall {α β : Type} (f : α → Except MErr β) (g : α → β) :
+    ∀ l : List α, (∀ x ∈ l, f x = .ok (g x)) → l.mapM f = .ok (l.map g)
+  | [], _ => rfl
+  | x :: l, h => by
+    rw [List.mapM_cons, h x (by simp), mapM_ok_of_forall f g l (fun y hy => h y (by simp [hy]))]
+    rfl
+
+/-- **Build succeeds** whenever every `AddSet` call was acceptable, and set `i` of the result is a
+function of the calls addressed to `i` only. -/
+theorem build_ok (n : Nat) (log : List AddCall) (hall : ∀ a ∈ log, callOk n a = true) :
+    ∃ b, (Matcher.replay n log).build = .ok b ∧ b.sets.size = n ∧
+      ∀ i, i < n → b.sets[i]? = some (builtOf (setOf log i)) := by
+  obtain ⟨h1, h2, h3⟩ := replay_ok n log hall
+  have hl : (Matcher.replay n log).sets.toList = (List.range n).map (setOf log) := by
+    apply List.ext_getElem?
+    intro i
+    rw [Array.getElem?_toList]
+    by_cases hi : i < n
+    · rw [h3 i hi]; simp [hi]
+    · rw [Array.getElem?_eq_none (by omega)]; simp [hi]
+  refine ⟨⟨((List.range n).map fun i => builtOf (setOf log i)).toArray⟩, ?_, by simp, ?_⟩
+  · unfold Matcher.build
+    rw [h1]
+    simp only
+    rw [hl, mapM_ok_of_forall buildSet builtOf]
+    · simp [List.map_map]; rfl
+    · intro sb hsb
+      obtain ⟨i, _, rfl⟩ := List.mem_map.mp hsb
+      exact buildSet_setOf log i
+  · intro i hi
+    simp [hi]
+
+theorem build_err (n : Nat) (log : List AddCall) (a : AddCall)
+    (h : log.find? (fun a => !callOk n a) = some a) :
+    (Matcher.replay n log).build = .error (callErr n a) := by
+  unfold Matcher.build
+  rw [replay_bad n log a h]
+
+/-! ### names of the property's alphabet -/
+
+theorem plainDomByte_lt (c : Nat) (h : plainDomByte c = true) : c < 123 := by
+  unfold plainDomByte at h
+  simp only [Bool.or_eq_true, Bool.and_eq_true, decide_eq_true_eq, beq_iff_eq] at h
+  omega
+
+theorem plainDomByte_facts : ∀ c, c < 123 → plainDomByte c = true →
+    (c ≠ cHat ∧ c ≠ cDollar) ∧ acValid c = true ∧ domainChars.isValid c = true := by decide
+
+theorem plainByte_lower : ∀ c, c < 123 → plainByte c = true → plainDomByte (lowerByte c) = true := by
+  decide
+
+theorem plainByte_lt (c : Nat) (h : plainByte c = true) : c < 123 := by
+  unfold plainByte plainDomByte at h
+  simp only [Bool.or_eq_true, Bool.and_eq_true, decide_eq_true_eq, beq_iff_eq] at h
+  omega
+
+/-- a normalised name of the property's alphabet -/
+def PlainDom (dom : Str) : Prop := ∀ c ∈ dom, plainDomByte c = true
+
+theorem plainDom_normName (name : Str) (h : plainName name = true) : PlainDom (normName name) := by
+  intro c hc
+  unfold normName lower at hc
+  obtain ⟨c0, hc0, rfl⟩ := List.mem_map.mp hc
+  have hm : c0 ∈ name := by
+    unfold trimSuffixByte at hc0
+    split at hc0
+    · exact List.dropLast_subset _ hc0
+    · exact hc0
+  have := List.all_eq_true.mp h c0 hm
+  exact plainByte_lower c0 (plainByte_lt c0 this) this
+
+theorem PlainDom.noMarkers {dom : Str} (h : PlainDom dom) : NoMarkers dom :=
+  fun c hc => (plainDomByte_facts c (plainDomByte_lt c (h c hc)) (h c hc)).1
+
+theorem PlainDom.map_acNorm {dom : Str} (h : PlainDom dom) :
+    (cHat :: dom ++ [cDollar]).map acNorm = cHat :: dom ++ [cDollar] := by
+  have : ∀ c ∈ (cHat :: dom ++ [cDollar]), acNorm c = c := by
+    intro c hc
+    simp only [List.cons_append, List.mem_cons, List.mem_append, List.not_mem_nil, or_false] at hc
+    unfold acNorm
+    rcases hc with rfl | hc | rfl
+    · decide
+    · rw [if_pos (plainDomByte_facts c (plainDomByte_lt c (h c hc)) (h c hc)).2.1]
+    · decide
+  conv => rhs; rw [← List.map_id (cHat :: dom ++ [cDollar])]
+  exact List.map_congr_left this
+
+/-! ### one `AddSet` call: what the code stores matches iff some valid pattern of the call matches -/
+
+/-- the three ways a stored item of a call can fire on a query -/
+def callFires (a : AddCall) (dom : Str) (rxHits : List Nat) : Prop :=
+  (∃ k ∈ (contrib a).trie, (toSuffixTrieString k).isPrefixOf (trieQuery dom) = true) ∨
+  (∃ p ∈ (contrib a).ac, p ≠ [] ∧ isInfix p (cHat :: dom ++ [cDollar]) = true) ∨
+  (∃ id ∈ (contrib a).rx, id ∈ rxHits)
+
+theorem callFires_iff (a : AddCall) (dom : Str) (rxHits : List Nat) (hd : NoMarkers dom) :
+    callFires a dom rxHits ↔
+      ∃ p ∈ a.pats, patValid a.kind p = true ∧ patMatches a.kind p dom rxHits = true := by
+  unfold callFires contrib
+  cases hk : a.kind
+  case full =>
+    simp only [List.not_mem_nil, false_and, exists_false, or_false, patValid, patMatches,
+      List.mem_flatMap, beq_iff_eq]
+    constructor
+    · rintro ⟨k, ⟨p, hp, hkp⟩, hpre⟩
+      unfold normFull at hkp
+      split at hkp
+      · rename_i hv
+        simp only [List.mem_singleton] at hkp; subst hkp
+        exact ⟨p, hp, hv, (full_key_iff p.s dom hd).mp hpre⟩
+      · simp at hkp
+    · rintro ⟨p, hp, hv, hm⟩
+      refine ⟨cHat :: p.s ++ [cDollar], ⟨p, hp, by simp [normFull, hv]⟩, (full_key_iff p.s dom hd).mpr hm⟩
+  case suffix =>
+    simp only [List.not_mem_nil, false_and, exists_false, or_false, patValid, patMatches,
+      List.mem_flatMap]
+    constructor
+    · rintro ⟨k, ⟨p, hp, hkp⟩, hpre⟩
+      unfold normSuffix at hkp
+      split at hkp
+      · rename_i hv
+        refine ⟨p, hp, hv, ?_⟩
+        split at hkp
+        · rename_i hdot
+          simp only [List.mem_singleton] at hkp; subst hkp
+          simp only [hdot, ↓reduceIte, isSuffixOf_iff_suffix]
+          exact (bare_key_iff p.s dom hd hdot).mp hpre
+        · rename_i hdot
+          simp only [hdot, ↓reduceIte, Bool.or_eq_true, beq_iff_eq, isSuffixOf_iff_suffix]
+          simp only [List.mem_cons, List.not_mem_nil, or_false] at hkp
+          rcases hkp with rfl | rfl
+          · exact Or.inr ((dot_key_iff p.s dom hd).mp hpre)
+          · exact Or.inl ((full_key_iff p.s dom hd).mp hpre)
+      · simp at hkp
+    · rintro ⟨p, hp, hv, hm⟩
+      by_cases hdot : p.s.head? = some cDot
+      · simp only [hdot, ↓reduceIte, isSuffixOf_iff_suffix] at hm
+        exact ⟨p.s ++ [cDollar], ⟨p, hp, by simp [normSuffix, hv, hdot]⟩, (bare_key_iff p.s dom hd hdot).mpr hm⟩
+      · simp only [hdot, ↓reduceIte, Bool.or_eq_true, beq_iff_eq, isSuffixOf_iff_suffix] at hm
+        rcases hm with hm | hm
+        · exact ⟨cHat :: p.s ++ [cDollar], ⟨p, hp, by simp [normSuffix, hv, hdot]⟩, (full_key_iff p.s dom hd).mpr hm⟩
+        · exact ⟨cDot :: p.s ++ [cDollar], ⟨p, hp, by simp [normSuffix, hv, hdot]⟩, (dot_key_iff p.s dom hd).mpr hm⟩
+  case keyword =>
+    simp only [List.not_mem_nil, false_and, exists_false, false_or, or_false, patValid, patMatches,
+      List.mem_flatMap, Bool.and_eq_true, Bool.not_eq_true', List.isEmpty_eq_false_iff]
+    constructor
+    · rintro ⟨k, ⟨p, hp, hkp⟩, hne, hin⟩
+      unfold normKeyword at hkp
+      split at hkp
+      · rename_i hv
+        simp only [List.mem_singleton] at hkp; subst hkp
+        exact ⟨p, hp, hv, hne, hin⟩
+      · simp at hkp
+    · rintro ⟨p, hp, hv, hne, hin⟩
+      exact ⟨p.s, ⟨p, hp, by simp [normKeyword, hv]⟩, hne, hin⟩
+  case regex =>
+    simp only [List.not_mem_nil, false_and, exists_false, false_or, patValid, patMatches,
+      List.mem_map, true_and, List.contains_iff_mem]
+    constructor
+    · rintro ⟨id, ⟨p, hp, rfl⟩, hin⟩; exact ⟨p, hp, hin⟩
+    · rintro ⟨p, hp, hin⟩; exact ⟨p.rxId, ⟨p, hp, rfl⟩, hin⟩
+  case unknown =>
+    simp [patValid]
 
 end DaeVerif.C11
